@@ -40,10 +40,10 @@ func (c kcase) name() string {
 	return fmt.Sprintf("kind=%s fail=%s modes=%s query=%s", c.kind, strings.Join(fs, "+"), modesName(c.modes), c.q.String())
 }
 
-var modeFields = []string{"items", "friend", "score", "owner", "fav"}
+var modeFields = []string{"items", "friend", "score", "owner", "fav", "ack"}
 
 // the configurable fields live on these types (Query.items etc. are different fields)
-var fieldType = map[string]string{"items": "User", "friend": "User", "score": "User", "fav": "User", "owner": "Item"}
+var fieldType = map[string]string{"items": "User", "friend": "User", "score": "User", "fav": "User", "owner": "Item", "ack": "User"}
 
 func modesName(m gqlfix.Modes) string {
 	var parts []string
@@ -64,6 +64,8 @@ func queries() []*qgen.Query {
 		{Root: []*qgen.Node{Arg(FA("u", "user", FA("f", "friend", FA("s", "score")), F("items", FA("n", "name"))), "id", int64(1)), F("count")}},
 		{Root: []*qgen.Node{F("items", F("owner", F("score"), F("friend", F("id"))))}},
 		{Root: []*qgen.Node{F("users", F("fav", On("Item", F("owner", F("id"))), On("User", F("score"))), F("friend", F("items", F("id"))))}},
+		// resolvers whose only result is an error
+		{Root: []*qgen.Node{F("users", F("id"), F("ack"), F("friend", FA("a", "ack")))}},
 	}
 }
 
@@ -172,9 +174,9 @@ func trunc(s string, n int) string {
 func cases(tier string) []kcase {
 	d := gqlfix.DataSets()[0]
 	var out []kcase
-	modeSets := []gqlfix.Modes{{}, {"items": gqlfix.Expensive, "owner": gqlfix.Expensive, "score": gqlfix.Expensive, "friend": gqlfix.Expensive, "fav": gqlfix.Expensive},
-		{"items": gqlfix.Batch, "owner": gqlfix.Batch, "score": gqlfix.Batch, "friend": gqlfix.Batch, "fav": gqlfix.Batch},
-		{"items": gqlfix.Par2, "owner": gqlfix.Expensive, "score": gqlfix.Par2, "friend": gqlfix.BatchFallbackOff}}
+	modeSets := []gqlfix.Modes{{}, {"items": gqlfix.Expensive, "owner": gqlfix.Expensive, "score": gqlfix.Expensive, "friend": gqlfix.Expensive, "fav": gqlfix.Expensive, "ack": gqlfix.Expensive},
+		{"items": gqlfix.Batch, "owner": gqlfix.Batch, "score": gqlfix.Batch, "friend": gqlfix.Batch, "fav": gqlfix.Batch, "ack": gqlfix.Batch},
+		{"items": gqlfix.Par2, "owner": gqlfix.Expensive, "score": gqlfix.Par2, "friend": gqlfix.BatchFallbackOff, "ack": gqlfix.BatchFallbackOn}}
 	for _, q := range queries() {
 		ev := &refeval.Eval{D: d, Q: q}
 		ev.Run()
@@ -265,7 +267,7 @@ func runSched(rp *explore.Report, tier string) {
 
 func init() {
 	reg.Register(&reg.Harness{Property: "C16", Name: "c16/execute-sequential", Level: "model_checking", Run: runSeq,
-		Rule: "sequential part: 4 queries (nested objects, lists, aliases, unions) x every single failing field instance and pairs of them (incl. one that is never reached) x failure kind {error, SafeError, wrapped safe error, panic} x field modes {plain, expensive, batch, mixed parallel} x FIFO/LIFO schedulers; oracle: Execute returns (nil, err) and err is exactly `path: message` of a failing reached field instance (response path with aliases and list indices; any member of the unit for batch fields), or the bare message for client-safe errors; no failure when no failing field is reached"})
+		Rule: "sequential part: 5 queries (nested objects, lists, aliases, unions, resolvers whose only result is an error) x every single failing field instance and pairs of them (incl. one that is never reached) x failure kind {error, SafeError, wrapped safe error, panic} x field modes {plain, expensive, batch, mixed parallel} x FIFO/LIFO schedulers; oracle: Execute returns (nil, err) and err is exactly `path: message` of a failing reached field instance (response path with aliases and list indices; any member of the unit for batch fields), or the bare message for client-safe errors; no failure when no failing field is reached"})
 	reg.Register(&reg.Harness{Property: "C16", Name: "c16/execute-scheduled", Level: "model_checking", Bounds: [2]int{2, 3}, Run: runSched,
 		Item: func(name string) *explore.Item {
 			for _, c := range cases("thorough") {
